@@ -20,7 +20,16 @@ func ivPoint(x float64) Iv { return Iv{x, x} }
 func down(x float64) float64 { return math.Nextafter(x, math.Inf(-1)) }
 func up(x float64) float64   { return math.Nextafter(x, math.Inf(1)) }
 
-func ivAdd(a, b Iv) Iv { return Iv{down(a.Lo + b.Lo), up(a.Hi + b.Hi)} }
+func ivAdd(a, b Iv) Iv {
+	r := Iv{down(a.Lo + b.Lo), up(a.Hi + b.Hi)}
+	if a.Lo >= 0 && b.Lo >= 0 && r.Lo < 0 {
+		r.Lo = 0
+	}
+	if a.Hi <= 0 && b.Hi <= 0 && r.Hi > 0 {
+		r.Hi = 0
+	}
+	return r
+}
 
 func ivNeg(a Iv) Iv { return Iv{-a.Hi, -a.Lo} }
 
@@ -38,7 +47,15 @@ func ivMul(a, b Iv) Iv {
 	if math.IsNaN(lo) || math.IsNaN(hi) {
 		return Iv{math.Inf(-1), math.Inf(1)}
 	}
-	return Iv{down(lo), up(hi)}
+	r := Iv{down(lo), up(hi)}
+	// sign information is exact: outward rounding must not move a bound across zero
+	if lo >= 0 && r.Lo < 0 {
+		r.Lo = 0
+	}
+	if hi <= 0 && r.Hi > 0 {
+		r.Hi = 0
+	}
+	return r
 }
 
 func ivInv(a Iv) (Iv, bool) {
@@ -51,6 +68,9 @@ func ivInv(a Iv) (Iv, bool) {
 func ivPow(a Iv, n int) (Iv, bool) {
 	if n == 0 {
 		return ivPoint(1), true
+	}
+	if n == 1 {
+		return a, true
 	}
 	if n < 0 {
 		inv, ok := ivInv(a)
@@ -67,7 +87,14 @@ func ivPow(a Iv, n int) (Iv, bool) {
 	if lo > hi {
 		lo, hi = hi, lo
 	}
-	return Iv{down(lo), up(hi)}, true
+	r := Iv{down(lo), up(hi)}
+	if lo >= 0 && r.Lo < 0 {
+		r.Lo = 0
+	}
+	if hi <= 0 && r.Hi > 0 {
+		r.Hi = 0
+	}
+	return r, true
 }
 
 func ivRat(r *big.Rat) Iv {
@@ -136,8 +163,9 @@ func atomIv(a *Atom, env ivEnv) (Iv, error) {
 			return Iv{down(math.Sqrt(args[0].Lo)), up(math.Sqrt(args[0].Hi))}, nil
 		case a.Fn == "exp" && len(args) == 1:
 			return Iv{down(math.Exp(args[0].Lo)), up(math.Exp(args[0].Hi))}, nil
-		case a.Fn == "pow" && len(args) == 2 && args[1].Lo == args[1].Hi && args[0].Lo > 0:
-			e := args[1].Lo
+		case a.Fn == "pow" && len(args) == 2 && isConstPoly(a.Args[1]) && (args[0].Lo > 0 || args[0].Lo >= 0 && args[1].Lo > 0):
+			ec, _ := a.Args[1].Const()
+			e, _ := ec.Float64()
 			lo, hi := math.Pow(args[0].Lo, e), math.Pow(args[0].Hi, e)
 			if lo > hi {
 				lo, hi = hi, lo
@@ -145,7 +173,7 @@ func atomIv(a *Atom, env ivEnv) (Iv, error) {
 			return Iv{down(lo), up(hi)}, nil
 		}
 	}
-	return Iv{}, fmt.Errorf("no interval for atom %s (kind %s)", a.Key, a.Kind)
+	return Iv{}, fmt.Errorf("no interval for atom %s (kind %s)%s", a.Key, a.Kind, dbgArgs(a, env))
 }
 
 // ---------------------------------------------------------------- branch and bound
@@ -272,6 +300,17 @@ func boxString(b map[string]Iv) string {
 	s := ""
 	for _, k := range ks {
 		s += fmt.Sprintf("%s∈[%.6g, %.6g] ", k, b[k].Lo, b[k].Hi)
+	}
+	return s
+}
+
+func isConstPoly(p Poly) bool { _, ok := p.Const(); return ok }
+
+func dbgArgs(a *Atom, env ivEnv) string {
+	s := ""
+	for _, q := range a.Args {
+		v, err := evalIv(q, env)
+		s += fmt.Sprintf(" arg=[%g,%g] err=%v", v.Lo, v.Hi, err)
 	}
 	return s
 }
